@@ -324,7 +324,11 @@ func TestCheck(t *testing.T) {
 			err error
 		}
 		results := make([]outcome, len(todo))
-		sem := make(chan struct{}, 4)
+		conc := 4
+		if env.Thorough() {
+			conc = 2 // thorough pairs have dumps of up to a GB: bound memory
+		}
+		sem := make(chan struct{}, conc)
 		var wg sync.WaitGroup
 		penv := env
 		penv.Workers = max(2, env.Workers/3)
